@@ -14,4 +14,5 @@ import OsacaVerif.Lemmas.ParseX86Mem
 import OsacaVerif.Lemmas.ParseX86Op
 import OsacaVerif.Lemmas.ParseX86Line
 import OsacaVerif.Lemmas.ParseX86File
+import OsacaVerif.Lemmas.ParseX86Tabs
 import OsacaVerif.Props.C09
